@@ -41,16 +41,16 @@ var Check = &run.Check{
 	Level: "exploration",
 	Rule: "case = directory tree of 2-8 files (nested directories; extensions from {.java,.py,.go,.ts,.js} and 12 others; 1 in 10 files CRLF, 1 in 40 empty, 1 in 12 ending in an unterminated `/*`) " +
 		"whose lines are assembled from code tokens (identifiers incl. TODO/FIXME, numbers, operators incl. / and *), string / char / back-tick literals containing //, /*, */, #, escapes and the word TODO, " +
-		"and line / block / hash comments generated from a grammar: empty, blanks only, one character, plain text, marker later in the text (after a word, glued to 1-2 characters, after punctuation, mid-line of a later block line), " +
+		"and line / block / hash comments generated from a grammar: empty, blanks only, one character, plain text, marker later in the text (after a word, glued to 1-2 characters, after punctuation, mid-line of a later block line, directly after a character that opens another kind of comment: `//# FIXME`, `#/ TODO`, `#* TODO`, `#// todo`, `/*# todo */`, `/*/ fixme */`), " +
 		"and marker comments = [blanks] (TODO|FIXME in 10 letter-case variants) followed by nothing | ':' | blank msg | ':' msg | ': ' msg | '(name)' | '(name):' | '(name) ' msg | '(name): ' msg | '(name):' msg, " +
-		"block comments optionally multi-line with or without ' * ' decoration; comments alone on a line, after code (glued or not), between tokens, two on one line; " +
+		"block comments optionally multi-line with or without ' * ' decoration; crash-only marker comments whose text after the marker (and optional colon/blanks) opens a '(' that is never closed in the comment (`// TODO (rework the`, `/* FIXME: (half */`, `# todo(`; entry optional, a panic is a violation); comments alone on a line, after code (glued or not), between tokens, two on one line; " +
 		"filter = subset number (index mod 32) of the 5-extension list; executed through todo.TodoApp.AnalysisPath(dir, exts) in-process and through `coca todo -p DIR -e exts` (simple-todos.json, count line and table) for every Nth case; " +
 		"oracle: multiset of (file, start line, assignee, message with '*' and blank runs collapsed) == planted marker comments of the selected files; " +
 		"non-trivial = at least 2 planted marker comments in selected files and at least one decoy carrying the marker word (literal, later mention, identifier) in a selected file; " +
 		"distinct = hash of (per file: extension + sequence of element shapes, subset number, boundary)",
 	Assumptions: []string{
-		"the comment marker is exactly `//`, `/*` or `#`; Javadoc `/** TODO`, a marker word at the start of a continuation line, doubled markers (`////`, `##`) are not generated (the statement does not settle them)",
-		"a marker is followed by end of text, a blank, ':' or '(name)' only: `TODOS`, `TODO-x`, `TODO :`, `TODO (x)`, `TODO()`, `TODO::`, messages starting with '(' or ':' are not generated; names are ASCII letters, digits, . _ - @",
+		"the comment marker is exactly `//`, `/*` or `#`; Javadoc `/** TODO`, a marker word at the start of a continuation line, doubled markers of the same kind (`////`, `///`, `##`, `//*`) are not generated (the statement does not settle them); a line comment whose text begins with '#', a hash comment whose text begins with '/' or '*' and a block comment whose text begins with '#' or '/' are plain 'mention later' decoys",
+		"a marker is followed by end of text, a blank, ':' or '(name)' only: `TODOS`, `TODO-x`, `TODO :`, `TODO (x)`, `TODO()`, `TODO::`, messages starting with '(' or ':' are not generated as asserted entries (a marker followed by an unclosed '(' is generated as a crash-only shape whose entry is free); names are ASCII letters, digits, . _ - @",
 		"char literals are Java-style (one character or one escape); single-quoted strings, unterminated strings, backslashes in back-tick literals and `//` as an operator are not generated",
 		"an unterminated `/* TODO …` at end of file may or may not be reported (only 'no crash' is stated); nothing but plain words follows an unterminated `/*`",
 		"messages are compared after replacing '*' by a blank and collapsing white space; the empty filter is exercised in-process only (`-e \"\"` is not obviously 'no extension')",
@@ -191,7 +191,12 @@ func runCase(c *run.Ctx, o *run.Outcome) {
 			truth.Expect = append(truth.Expect, oracle.TodoExpect{File: f.Rel, Line: p.Line, Kind: p.Kind, Form: p.Form, Tight: p.Tight, Multi: p.Multi,
 				Optional: p.Optional, Assignee: p.Assignee, Message: p.Message, Src: p.Src})
 			if p.Optional {
-				o.Count("unterminated_marker_comments(optional)", 1)
+				if p.Form == "unclosed-paren" {
+					o.Count("crash_only/unclosed_paren_after_marker(optional)", 1)
+					o.Count("crash_only/unclosed_paren/"+p.Kind, 1)
+				} else {
+					o.Count("unterminated_marker_comments(optional)", 1)
+				}
 				continue
 			}
 			required++
@@ -219,6 +224,10 @@ func runCase(c *run.Ctx, o *run.Outcome) {
 			}
 			o.Count("decoys/"+cat, 1)
 			o.Seen("decoy_shapes", d.What)
+			if strings.HasSuffix(d.What, "/opener-char") {
+				o.Count("decoys_later_after_other_comment_opener", 1)
+				o.Seen("opener_char_decoys", d.Src[:strings.IndexAny(d.Src+"T", "TtFf \t")])
+			}
 			if strings.HasPrefix(d.What, "later/") || strings.HasSuffix(d.What, "+marker") || d.What == "code-ident" {
 				markerDecoys++
 			}
